@@ -1,53 +1,66 @@
-"""Configuration of ./check for C03 (see tools/props.py)."""
-ENTRY = {'coq_dir': 'C03',
- 'harness': 'c03',
- 'model_files': ['Model', 'Msg', 'Glue'],
- 'proof_files': ['Properties'],
- 'cases': {'quick': 3000, 'thorough': 150000},
- 'consts': ['C03_MAX_LEN_BYTES', 'C03_MAX_PROTOCOLS'],
- 'nontrivial_min_trace': 12,
- 'rule': 'three streams per run: (i) corpus witnesses (V1Lazy pitfall, 16 KiB frame boundary, names with newline / equal to the header / '
-         'without slash); (ii) exhaustive small scope: all pairs of dialer list x listener list over the pool {/a, /a/b, /c} with length '
-         '<= 2 (quick, 2 chunkings) or <= 3 (thorough, 4 chunkings incl. byte-at-a-time and Pending-every-other-call), payloads that start '
-         'with a negotiation-looking frame; (iii) seeded random cases, 50% two-ended stream negotiation (pool of 2-7 names drawn from '
-         'nested, fallback-style, odd-byte, 126..300-byte, 16381..16384-byte and invalid names; lists of 0-6 names; V1 80% / V1Lazy 20%; '
-         'scheduler script of 0-40 polls then alternation; four independent read/write scripts of chunk limits and injected Pendings; '
-         'payloads of 0-150 bytes incl. frames that look like proposals/header/na), 20% ONE real future (dialer or listener) against a '
-         'scripted peer byte stream (frame sequences incl. ls / ls-responses / empty frames / garbage / mutated or truncated varints, '
-         'closed at the end), 20% webrtc_listener_negotiate and 10% WebRtcDialerState on generated and mutated payloads. For a stream case '
-         'the REAL dialer_select_proto / listener_select_proto futures and the Negotiated streams they return are polled over a scripted '
-         'in-memory duplex; each side then writes its payload, closes and reads to EOF. Compared with the extracted Coq model: both '
-         'results (index or error class), read-end status, application bytes received by each side, every byte each side wrote, bytes left '
-         'unread in each direction, stuck/terminated flag. prop_ok judges the implementation trace itself: termination, first-common '
-         "agreement with the listener's first matching entry, payloads delivered unchanged with clean EOF and empty pipes (V1, well-formed "
-         'names); for V1Lazy at the last name only the dialer half; for names outside the domain only consistency; a lone future may only '
-         'settle on a name whose frame occurs in its input.',
- 'trusted_base': ['the scripted duplex of harness/src/c03.rs stands for the byte carrier (yamux/TCP below it is not modelled); writes to a '
-                  'dropped end are accepted, a dropped end reads as EOF once drained; poll_flush of the carrier is always Ready',
-                  'futures are polled with a no-op waker by the scheduler script, i.e. wake-ups are not relied upon',
-                  'the step from the byte-level machines of Model.v to the message-level system of Msg.v is by construction (shared '
-                  'decision functions d_react / l_find) plus the codec and frame-exactness theorems; it is not itself a Coq refinement '
-                  'theorem'],
- 'level_text': 'Proof, in three layers. (1) Message codec: decode(encode m) = m and injectivity for header, na, ls and every protocol name '
-               "that starts with '/', has no newline and differs from the header line. (2) LengthDelimited framing for EVERY "
-               'fragmentation: under any read script, any partial availability and any point inside a frame, one poll_next of the '
-               'byte-at-a-time reader either stays inside the frame or returns exactly the body having consumed exactly varint+body bytes '
-               '- never a byte of what follows (the application data); under any write script the writer delivers its buffer in order '
-               'without loss and reports completion only when empty. (3) Negotiation (V1) as a two-process system over FIFO message '
-               'channels with micro-steps (emit, move one buffered message, consume one message) under an ARBITRARY scheduler: for all '
-               "dialer lists of valid names and all listener sets, any result either side reports equals the dialer's first name the "
-               'listener supports (else failure), both sides terminate under every fair schedule, and at hand-over the inbound channel '
-               'holds no negotiation message, the write buffer is empty (the into_inner assertions) and no direction is closed. The '
-               'byte-level machines (dialer, listener, Negotiated incl. V1Lazy Expecting state, webrtc_listener_negotiate, '
-               'WebRtcDialerState) are executable in Coq and diffed against the Rust code per case.',
- 'level_note': 'Not proved: a mechanised refinement from the byte-level machines to the message-level system (argued from layers 1-2 and '
-               'shared decision functions; checked by the differential run); the ls-response (Message::Protocols) round trip; V1Lazy and '
-               'the message-based WebRTC variant have no theorems, only the model/implementation diff and the oracle - and for V1Lazy only '
-               'the dialer half of agreement is demanded, because of the upstream-documented pitfall (Example C03_lazy_pitfall: a payload '
-               "that looks like a proposal is accepted by the listener); litep2p's transports use V1 only. The fallback-name -> "
-               "main-protocol mapping of protocol_set.rs, negotiation timeouts and the differential against rust-libp2p's "
-               'multistream-select are not covered.',
- 'assumptions': ["protocol names are valid: start with '/', contain no newline, differ from /multistream/1.0.0, and name+1 <= 16383 bytes "
-                 '(others are run and diffed, but only consistency is demanded)',
-                 'the carrier is a reliable FIFO byte stream per direction',
-                 'fair scheduling: both futures keep being polled']}
+"""C03 — configuration of ./check (loaded by tools/props.py)."""
+
+ENTRY = {
+        "coq_dir": "C03",
+        "harness": "c03",
+        "model_files": ["Model", "Msg", "Glue"],
+        "proof_files": ["Properties"],
+        "cases": {"quick": 3000, "thorough": 150000},
+        "consts": ["C03_MAX_LEN_BYTES", "C03_MAX_PROTOCOLS"],
+        "nontrivial_min_trace": 12,
+        "rule": ("four kinds of cases per run: (i) corpus witnesses (V1Lazy pitfall, 16 KiB frame boundary, names with newline / equal to the header / "
+                "without slash, fallback-table edge cases); (ii) exhaustive small scope: all pairs of dialer list x listener list over {/a, /a/b, /c} with "
+                "length <= 2 (quick, 2 chunkings) or <= 3 (thorough, 4 chunkings incl. byte-at-a-time and Pending-every-other-call), payloads that start "
+                "with a negotiation-looking frame; (iii) seeded random cases: 40% two-ended stream negotiation (pool of 2-7 names drawn from nested, "
+                "fallback-style, odd-byte, 126..300-byte, 16381..16384-byte and invalid names; lists of 0-6 names; V1 80% / V1Lazy 20%; scheduler script "
+                "of 0-40 polls then alternation; four independent read/write scripts of chunk limits and injected Pendings; payloads of 0-150 bytes incl. "
+                "frames that look like proposals/header/na), 20% ONE real future (dialer or listener) against a scripted peer byte stream (frame sequences "
+                "incl. ls / ls-responses / empty frames / garbage / mutated or truncated varints, closed at the end), 20% webrtc_listener_negotiate and "
+                "10% WebRtcDialerState on generated and mutated payloads, 10% ProtocolSet::report_substream_open on generated main/fallback tables "
+                "(~20% degenerate: shared fallback, fallback equal to a main, unknown name). For a stream case the REAL dialer_select_proto / "
+                "listener_select_proto futures and the Negotiated streams they return are polled over a scripted in-memory duplex; each side then "
+                "writes its payload, closes and reads to EOF. Compared with the extracted Coq model: both results (index or error class), read-end "
+                "status, application bytes received by each side, every byte each side wrote, bytes left unread in each direction, stuck/terminated "
+                "flag. prop_ok judges the implementation trace itself: termination, first-common agreement with exact indices, payloads delivered "
+                "unchanged with clean EOF and empty pipes (V1, well-formed names); V1Lazy at the last name only the dialer half; names outside the "
+                "domain only consistency; a lone future may only settle on a name whose frame occurs in its input; message-based listener: Accepted "
+                "only on a payload that is EXACTLY a well-formed proposal of that name (first position, confirmation as reply), never reject/err on "
+                "such a payload for a supported name, Pending only on the bare header; message-based dialer: verdicts only on payloads containing the "
+                "confirmation of the current name / na, fallbacks proposed in order without header; fallback table: reported (main, fallback) must "
+                "be the declared one (exact for well-formed tables)."),
+        "trusted_base": [
+            "the scripted duplex of harness/src/c03.rs stands for the byte carrier (yamux/TCP below it is not modelled); writes to a dropped end are accepted, a dropped end reads as EOF once drained; poll_flush of the carrier is always Ready",
+            "futures are polled with a no-op waker by the scheduler script, i.e. wake-ups are not relied upon",
+            "ProtocolSet tables: a fallback name declared by several main protocols is resolved by HashMap iteration order; the harness steers the real map to the order given in the case (rebuilds until it agrees) instead of guessing",
+        ],
+        "level_text": ("Proof, in six layers. (1) Codec: decode(encode m) = m and injectivity for header, na, ls and every valid name; the ls response "
+                      "(Message::Protocols) round trip incl. the MAX_PROTOCOLS bound; unsigned-varint round trip. (2) LengthDelimited framing for EVERY "
+                      "fragmentation: one poll_next under any read script / partial availability returns exactly the body having consumed exactly "
+                      "varint+body bytes or stays inside the frame; the writer delivers its buffer in order under any write script. (3) Negotiation (V1) "
+                      "as a two-process message-level system under an ARBITRARY scheduler: agreement on the dialer's first supported name, termination "
+                      "under fairness, clean hand-over. (4) PROJECTION: every run of the byte-level two-ended system of Model.v (the model diffed against "
+                      "the Rust code: dialer/listener futures with reader and writer buffers, tasks that write a payload, close and read to EOF, two "
+                      "scripted pipes) under any poll sequence, any chunking and any Pending injection is related poll-by-poll to a run of the "
+                      "message-level system; hence, as theorems about the byte-level model: any reported success carries the exact index of the first "
+                      "supported name (dialer) / first matching entry (listener), any reported failure means no common name, after success each side "
+                      "receives exactly the other's application bytes with clean EOF and empty pipes - no application byte consumed or lost -, no "
+                      "reachable state is stuck short of completion, and BOTH TASKS TERMINATE under every fair poll sequence (an invariant-free "
+                      "potential over buffers, pipes, scripts and remaining names strictly decreases on every non-blocked poll); whenever the harness "
+                      "scheduler reports completion the final state is the one the property demands. (5) Message-based WebRTC variant: listener on "
+                      "header+proposal / proposal after header / header alone, trailing bytes rejected, dialer verdict independent of message grouping, "
+                      "whole sessions agree on the first supported of main::fallbacks with fallbacks proposed in order. (6) Fallback name -> main "
+                      "protocol mapping of ProtocolSet::report_substream_open. V1Lazy, dialer side: the future settles on its first poll (byte level); "
+                      "for every application-data content, listener set and schedule the dialer's verdict is 'confirmed' iff the listener supports the "
+                      "name (message level); the listener half of agreement is refuted by a witness (upstream-documented pitfall)."),
+        "level_note": ("Not proved: that the fuel bound and stuck detector of the harness scheduler (run_sys) never fire - byte-level termination is proved "
+                      "for every fair poll sequence instead, and C03_bytes_run_correct covers every completed run_sys run; the V1Lazy dialer-side theorem "
+                      "is at message level (application data abstracted as an arbitrary sequence of frames seen by the listener, dialer writes everything "
+                      "before it reads) - there is no byte-level projection for V1Lazy, only the model/implementation diff (litep2p's transports use V1 "
+                      "only). The carrier below the scripted duplex (yamux/TCP), negotiation timeouts and the differential against rust-libp2p's "
+                      "multistream-select are not covered."),
+        "assumptions": [
+            "protocol names are valid: start with '/', contain no newline, differ from /multistream/1.0.0, and name+1 <= 16383 bytes (others are run and diffed, but only consistency is demanded)",
+            "the carrier is a reliable FIFO byte stream per direction",
+            "fair scheduling: both futures keep being polled",
+        ],
+    }
